@@ -432,9 +432,11 @@ Cands(S, k) ==
     [] k = "DsUnbond" -> {x \in {[a |-> "DsUnbond", del |-> d, prov |-> p, val |-> v, amt |-> am] :
                                    d \in Delegators, p \in Providers, v \in Validators, am \in Amts} :
                             S.dlg[x.del][x.prov] >= x.amt /\ S.vdl[x.del][x.val] >= x.amt}
-    [] k = "DsClaim" -> {[a |-> "DsClaim", who |-> w, prov |-> ""] : w \in Delegators}
-                         \cup {x \in {[a |-> "DsClaim", who |-> w, prov |-> p] : w \in Providers, p \in Providers \cup {""}} :
-                                 S.rewd[x.who] > 0 /\ x.prov \in {x.who, ""}}
+    [] k = "DsClaim" ->
+         LET pc == {x \in {[a |-> "DsClaim", who |-> w, prov |-> p] : w \in Providers, p \in Providers \cup {""}} :
+                      S.rewd[x.who] > 0 /\ x.prov \in {x.who, ""}}
+             dc == {[a |-> "DsClaim", who |-> w, prov |-> ""] : w \in {d \in Delegators : pc = {} \/ DTotal(S, d) > 0}}
+         IN pc \cup dc
     [] k = "ValDelegate" -> {[a |-> "ValDelegate", del |-> d, val |-> v, amt |-> am] : d \in Delegators, v \in Validators, am \in Amts}
     [] k = "ValUndelegate" -> {x \in {[a |-> "ValUndelegate", del |-> d, val |-> v, amt |-> am] :
                                         d \in Delegators, v \in Validators, am \in Amts} :
@@ -657,8 +659,8 @@ KindsOf(b) ==
     [] b = "stake" -> ({"NextBlock", "NextEpoch", "Slash", "Stake", "MoveStake", "Unstake", "Freeze", "Unfreeze", "DsDelegate",
                         "DsRedelegate", "DsUnbond", "DsClaim", "ValDelegate", "ValUndelegate", "ValRedelegate", "SubBuy", "RelayPay"} \X {1})
                       \cup ({"NextBlock", "Unstake", "Slash"} \X {2})
-    [] b = "iprpc" -> ({"NextBlock", "NextEpoch", "SubBuy", "RelayPay", "IprpcSetData", "IprpcFund", "DsClaim", "Unstake", "Stake"} \X {1})
-                      \cup ({"NextBlock", "RelayPay"} \X {2})
+    [] b = "iprpc" -> ({"NextBlock", "RelayPay"} \X {1, 2, 3}) \cup ({"IprpcFund"} \X {1, 2}) \cup
+                      ({"NextEpoch", "SubBuy", "IprpcSetData", "DsClaim", "Unstake", "Stake"} \X {1})
     [] OTHER -> ((TxKinds \cup BlockKinds) \X {1}) \cup ({"NextBlock", "NextEpoch"} \X {2, 3})
 \* block-time steps are drawn with weights: most of them land just before / just after a month boundary
 DtWeights == {<<"monthend", 1>>, <<"monthend", 2>>, <<"monthend", 3>>, <<"plus10", 1>>, <<"plus10", 2>>,
